@@ -40,6 +40,9 @@ type c06Prog struct {
 	// Phase: the external function returns FlagSet on its first call and FlagReset on every later call,
 	// and the child node RELOADs it, so that reset requests meet flags set by an earlier call.
 	Phase bool `json:"two_phase_answers,omitempty"`
+	// ChildCroak: the child node (reached through an INCMP that is followed by further INCMP lines)
+	// starts with CROAK k !m: a croak right after a match must terminate, not go to the catch node.
+	ChildCroak bool `json:"croak_in_child,omitempty"`
 }
 
 type c06Witness struct {
@@ -69,6 +72,9 @@ func c06App(p c06Prog, set, reset []uint32) *app.App {
 	var aa []codec.Ins
 	if p.Phase && !p.Post {
 		aa = append(aa, codec.Ins{Op: codec.RELOAD, Sym: "ff"}, codec.Ins{Op: codec.CATCH, Sym: "tt", N: p.K, Mode: p.M})
+	}
+	if p.ChildCroak {
+		aa = append(aa, codec.Ins{Op: codec.CROAK, N: p.K, Mode: !p.M})
 	}
 	if p.Rel {
 		// complementary mode: taken exactly when the entry node's branch was not (otherwise the child is never reached)
@@ -297,7 +303,7 @@ func c06Run(c *mc.Ctx) {
 				for _, m := range []bool{false, true} {
 					progs = append(progs, c06Prog{Croak: croak, Post: post, K: k, M: m})
 					if !croak && !post && k >= 8 {
-						progs = append(progs, c06Prog{K: k, M: m, Rel: true}, c06Prog{K: k, M: m, Phase: true})
+						progs = append(progs, c06Prog{K: k, M: m, Rel: true}, c06Prog{K: k, M: m, Phase: true}, c06Prog{K: k, M: m, ChildCroak: true})
 					}
 				}
 			}
